@@ -120,6 +120,11 @@ CHECKS["C30"] = ("model_checking",
     "All token sequences up to length 3 (4 thorough) over digits, '.', '..', '/', letters, backslash, optionally with an absolute prefix, as SOP Instance UID of a C-STORE handled by both applications; filesystem snapshot before/after; only files inside the storage directory or the database file may change.",
     "Trusted: handlers called directly with an event built from the encoded/decoded dataset; POSIX only.", "§6 C30", "storepath")
 
+CHECKS["C25"] = ("model_checking",
+    "TLA+ StorePipeline spec (encode, fragment, wire, reassemble in memory or temp file, access) whose configuration vectors TLC enumerates; each configuration is executed between two real AEs on loopback and the receiving side records every view the API offers (S2C); the Trace_Store spec reports the first view that differs from the original (C2S)",
+    "Operation (C-STORE from memory / from file / as C-GET sub-operation, C-FIND/GET/MOVE identifiers, C-FIND response identifier, N-SET/N-CREATE/N-ACTION/N-EVENT-REPORT data sets, N-GET response) x 4 transfer syntaxes (implicit/explicit LE, explicit BE, deflated) x maximum PDU {0,128,16382} (+7,1030,131072) x chunked send x chunked receive x 7 (10) dataset shapes; decoded view, raw encoded bytes and the chunked-receive file compared with pydicom's own encode/decode of the original.",
+    "Trusted: dataset shape catalogue (leaf space sampled); pydicom's codec; 300 configurations in quick with all chunked-mode big/VR-mix ones kept.", "§6 C25", "store")
+
 NOT_YET = {}
 
 
